@@ -203,6 +203,13 @@ func runC06(c *Ctx) {
 		if g.Chance(3) {
 			cores = append(cores, zapcore.NewNopCore())
 		}
+		if g.Chance(3) {
+			// a user core (auditing, say) that registers an after-write hook of
+			// its own from Check; placed first, so it registers before the logger
+			// attaches the terminal action
+			cores = append([]zapcore.Core{c06afterCore{}}, cores...)
+			c.R.Probe("a core of the tee registers its own after-write hook")
+		}
 		core = zapcore.NewTee(cores...)
 	case 3:
 		w.dropAll = true
@@ -574,6 +581,18 @@ func (w *c06world) judgeOne(lf *c06leaf, synced []byte, when string) {
 		}
 	}
 }
+
+// c06afterCore accepts every entry, writes nothing, and registers an
+// after-write hook of its own (one that returns) from Check.
+type c06afterCore struct{}
+
+func (c06afterCore) Enabled(zapcore.Level) bool          { return true }
+func (k c06afterCore) With([]zapcore.Field) zapcore.Core { return k }
+func (k c06afterCore) Check(e zapcore.Entry, ce *zapcore.CheckedEntry) *zapcore.CheckedEntry {
+	return ce.AddCore(e, k).After(e, c06quiet{})
+}
+func (c06afterCore) Write(zapcore.Entry, []zapcore.Field) error { return nil }
+func (c06afterCore) Sync() error                                { return nil }
 
 // c06badKV: which key/value list the sugared ...w front end passes in this run
 // (0 well-formed, 1-3 malformed).
